@@ -277,6 +277,14 @@ func (p *Pool) Put(x any) {
 type Map struct {
 	keys []any
 	vals []any
+	ep   uint32
+}
+
+// fresh empties a map that was last used in an earlier execution (a package-level variable).
+func (m *Map) fresh() {
+	if e := mc.Epoch(); m.ep != e {
+		m.ep, m.keys, m.vals = e, nil, nil
+	}
 }
 
 func (m *Map) find(k any) int {
@@ -289,6 +297,9 @@ func (m *Map) find(k any) int {
 }
 
 func (m *Map) op(kind string, f func()) {
+	if !mc.Killing() {
+		m.fresh()
+	}
 	if mc.Killing() {
 		f()
 		return
